@@ -6,7 +6,7 @@
    on the implementation objects by harness/props/c09.py after every step. *)
 From Coq Require Import ZArith List Bool.
 From Coq Require Import QArith.
-From Forsys Require Import Model.PyList Model.Interfaces Model.Resample Model.Heap Proofs.HeapProofs Proofs.ShiftProofs Proofs.ResampleProofs Proofs.ResampleConsistency Proofs.SelectionProofs Proofs.JoinProofs.
+From Forsys Require Import Model.PyList Model.Interfaces Model.Resample Model.Heap Proofs.HeapProofs Proofs.ShiftProofs Proofs.ResampleProofs Proofs.ResampleConsistency Proofs.SelectionProofs Proofs.JoinProofs Model.SEParse Proofs.SEParseProofs.
 Import ListNotations.
 
 Theorem C09_step_preserves : forall s o, Inv s -> Inv (hstep s o).
@@ -89,6 +89,15 @@ Example C09_example :
   (own s 1, own s 2, own s 3, own s 4, items s) = ([], [0], [], [0], [(0, [4; 2])])%Z.
 Proof. vm_compute. reflexivity. Qed.
 
+(* the Surface Evolver parser (Model/SEParse.v, create_lattice): every kept mesh edge joins kept vertices, every vertex of a cell cycle is
+   kept (whenever the dump defines those vertices at all), and every kept vertex occurs in some cell - clause (3) for that path *)
+Theorem C09_parsed_dump_references_exist : forall vids edges cells,
+  (forall k v1 v2, In (k, (v1, v2)) (kept_edges edges cells) -> In v1 vids -> In v2 vids ->
+     In v1 (kept_vertices vids cells) /\ In v2 (kept_vertices vids cells)) /\
+  (forall c v, In c cells -> In v c -> In v vids -> In v (kept_vertices vids cells)) /\
+  (forall v, In v (kept_vertices vids cells) -> exists c, In c cells /\ In v c).
+Proof. exact parsed_mesh_references_exist. Qed.
+
 Print Assumptions C09_step_preserves.
 Print Assumptions C09_histories_consistent.
 Print Assumptions C09_resample_edge_ids.
@@ -98,3 +107,4 @@ Print Assumptions C09_resampled_cycle_joined.
 Print Assumptions C09_resample_hyps_cycles_joined.
 Print Assumptions C09_resampled_cycle_joined_on_simple_meshes.
 Print Assumptions C09_merge_keeps_references.
+Print Assumptions C09_parsed_dump_references_exist.
